@@ -146,6 +146,10 @@ class IterFault(Exception):
     pass
 
 
+class Skip(Exception):
+    pass
+
+
 # ------------------------------------------------------------------ session
 class Session:
     """a real array directory + live handle, driven by spec labels"""
@@ -201,6 +205,8 @@ class Session:
         exc = None
         try:
             getattr(self, 'do_' + name)(*args)
+        except Skip:
+            raise
         except Exception as e:   # noqa
             exc = e
         return classify(exc), exc
@@ -272,7 +278,12 @@ class Session:
         rb = self.cfg.rowbytes
         pre = os.path.getsize(os.path.join(self.path, disk.DATA))
         done = sum(len(c) for c in cs[:f['at'] - 1])
-        return pre + done * rb + f['k'] * rb + self.real_b(f['b'])
+        lim = pre + done * rb + f['k'] * rb + self.real_b(f['b'])
+        if lim < 12000:
+            # the limit would also hit the (small) JSON/README files: the kernel
+            # fault cannot be isolated to the data file for this case
+            raise Skip('write fault at offset %d cannot be isolated' % lim)
+        return lim
 
     class fsize_limit:
         """kernel-enforced refusal of file growth beyond `limit` bytes"""
